@@ -1,4 +1,5 @@
 import Driver.C01
+import Driver.C02
 import Driver.C06
 import Driver.C07
 import Driver.C08
@@ -25,6 +26,7 @@ open Driver
 def dispatch (prop : String) (args : List String) (impl : String) : Verdict :=
   match prop with
   | "C01" => C01.handleC01 args impl
+  | "C02" => C02.handle args impl
   | "C03" => C01.handleC03 args impl
   | "C05" => C01.handleC05 args impl
   | "C06" => C06.handle args impl
